@@ -54,6 +54,10 @@ def persistStep (st : PersistDrvSt) (op : String) (a : KV) : PersistDrvSt × Str
       -- whichever runs first, each takes effect as if alone (isolation per fan, C14_isolation_run); the ids are used by
       -- nothing else and are gone again when the op ends
       (st, "ok failed=0 bad=0")
+    | "ps.lookups" =>
+      -- concurrent look-ups of intact stored entries by several instances: each returns its entry (loads do not change the
+      -- store); the ids are used by nothing else and are gone again when the op ends
+      (st, "ok failed=0 bad=0")
     | "ps.initsparse" =>
       -- `Init()` on a database file that is mostly unused pages, under a held file lock, with other instances' saves
       -- queued behind it: Init leaves the store alone and every save takes effect (isolation per fan); the ids are used
